@@ -80,7 +80,7 @@ def main():
                    'model and proofs not built yet in this development (planned in DESIGN.md section 5); not claimed'})
     m = {
       'version': 1,
-      'setup_cmd': 'cd /verif && tools/mkproject.sh && cd coq && coq_makefile -f _CoqProject -o Makefile && timeout 3000 make -j16',
+      'setup_cmd': 'cd /verif && tools/mkproject.sh && cd coq && coq_makefile -f _CoqProject -o Makefile && (timeout 3000 make -k -j16; true)',
       'hooks': {'guard': 'GEOSTRUCTURES_VERIF', 'enable': 'no hooks are needed: every observable is reachable through the public API (the checks export GEOSTRUCTURES_VERIF=1 anyway)',
                 'baseline_off_cmd': 'cd /repo && /venv/bin/python -m pytest -ra -q -p no:cacheprovider --timeout=900 --continue-on-collection-errors',
                 'source_commits': [], 'add_only': True},
